@@ -83,6 +83,10 @@ def base_cases(r, tier):
     pre8 += [F("dst/src/log.~1~", 7, 120), F("dst/src/f1.~2~", 8, 121), F("dst/src/README.~1~", 9, 122)]
     out.append({"name": "backup-prefix-names", "spec": spec8, "pre": pre8, "bs": "4096", "expect_fail": False, "opts": ["--backup", "numbered"]})
     out.append({"name": "backup-prefix-names-auto", "spec": copy.deepcopy(spec8), "pre": copy.deepcopy(pre8), "bs": "4096", "expect_fail": False, "opts": ["--backup", "auto"]})
+    # T10: the same source named twice under -n: whether a worker has already created the copy when the walker meets the second
+    # mention must not decide the exit status
+    out.append({"name": "same-source-twice-noclobber", "spec": copy.deepcopy(spec), "pre": [{"p": "dst", "k": "d"}], "bs": "4096", "expect_fail": False, "opts": ["-n"],
+                "tail": ["src/m1", "src/d1/tiny", "src/m1", "src/d1/tiny", "src/m2", "dst"], "per": 24 if tier == "quick" else 120})
     # T9: more one-block files than half the customary descriptor limit, under that limit: whether the workers keep up with the
     # dispatcher must not decide the outcome
     spec9 = [{"p": "src", "k": "d"}] + [{"p": "src/d%d" % k, "k": "d"} for k in range(4)] + [F("src/d%d/f%03d" % (i % 4, i), r.choice([1, 100, 4000]), 200 + i) for i in range(900)]
@@ -112,7 +116,7 @@ def gen_cases(tier, seed):
                     sch, w = bc["scheds"][k % len(bc["scheds"])]
                     sch = dict(sch, sched_seed=r.randrange(1 << 30))
                 yield {"group": gid, "name": bc["name"], "spec": bc["spec"], "pre": bc["pre"], "driver": driver, "workers": w,
-                       "args": ["--driver", driver, "-w", str(w), "--block-size", bc["bs"]] + bc.get("opts", []) + ["-r", "src", "dst"], "plan": sch,
+                       "args": ["--driver", driver, "-w", str(w), "--block-size", bc["bs"]] + bc.get("opts", []) + bc.get("tail", ["-r", "src", "dst"]), "plan": sch,
                        "expect_fail": bc["expect_fail"], "fs": "ext4", "rules": bc.get("rules", []), "nofile": bc.get("nofile")}
         gid += 1
 
